@@ -8,7 +8,7 @@ from __future__ import annotations
 import math
 from fractions import Fraction as F
 
-from mc import builder
+from mc import builder, canon, fileio
 from refs import bms as rb
 
 ID = "C04"
@@ -427,6 +427,10 @@ def check_doc(doc, lab, case, ctx, nontrivial=True, key=None):
         ctx.check("raises", False, site=dict(site, exc=type(e).__name__), case=case, observed=f"{type(e).__name__}: {e}"[:300], expected="a chart")
         return
     ctx.passed("raises")
+    if len(lab["devs"]) <= 1 or any(d.startswith("layout=") for d in lab["devs"]):
+        # the file entry point: read_file(path, layout) of a file holding these lines denotes what read(lines, layout) gave
+        fileio.check_file_entry_points(ctx, "bms", "\r\n".join(lines), m, canon.canon_map, dict(route="file-entry", layout=doc["layout"]), case,
+                                       read_kw=dict(note_channel_config=rb.lib_layout(doc["layout"])), check_write=False)
     got_h = sorted((int(c), float(t), (s.decode("shift_jis", errors="backslashreplace") if isinstance(s, bytes) else str(s))) for t, c, s in zip(m.hits.offset.tolist(), m.hits.column.tolist(), m.hits.sample.tolist()))
     got_l = sorted((int(c), float(t), float(l), (s.decode("shift_jis", errors="backslashreplace") if isinstance(s, bytes) else str(s))) for t, c, l, s in zip(m.holds.offset.tolist(), m.holds.column.tolist(), m.holds.length.tolist(), m.holds.sample.tolist()))
     exp_h = [(c, float(t), w) for c, t, w in hits]
